@@ -36,6 +36,8 @@ type RespPlan struct {
 	TrailerStyle     string      `json:"trailer_style,omitempty"`      // announce | prefix
 	AnnounceCase     string      `json:"announce_case,omitempty"`      // spelling of the names in the Trailer header: "" canonical | lower | upper | given | lines (one header line per name)
 	StrayHTTPTrailer bool        `json:"stray_http_trailer,omitempty"` // a Connect-unary backend (whose trailers are Trailer- headers) also sets a real HTTP trailer, as a middleware might
+	CompressErrBody  bool        `json:"compress_err_body,omitempty"`  // a Connect-unary backend compresses its error body too (legal; connect-go does not)
+	EarlyTrailers    bool        `json:"early_trailers,omitempty"`     // prefix style: the first value of a multi-valued trailer is set before the head is written, the rest after the body
 	DeclareCL        string      `json:"declare_cl,omitempty"`         // "" | exact | +N | -N | =N
 	WriteMode        string      `json:"write_mode,omitempty"`         // whole | frames | prefix-payload | sizes
 	WriteSizes       []int       `json:"write_sizes,omitempty"`        // cyclic, for mode sizes
@@ -810,6 +812,10 @@ func (h *backendHandler) renderResponse(st *rpcState, obs *BackendObs, override 
 			}
 			rr.headers.Set("Content-Type", "application/json")
 			rr.body = connectErrToJSON(errSpec)
+			if rp.CompressErrBody && comp != "" {
+				rr.body = refCompress(comp, rr.body)
+				rr.headers.Set("Content-Encoding", comp)
+			}
 			break
 		}
 		rr.headers.Set("Content-Type", "application/"+obs.Codec)
@@ -955,6 +961,23 @@ func (h *backendHandler) writeResponse(st *rpcState, obs *BackendObs, rw http.Re
 		}
 		announceTrailers(hd, names, rp.AnnounceCase)
 	}
+	early := map[int]bool{}
+	if rp.EarlyTrailers && !announce {
+		// a handler that starts a multi-valued trailer before it writes the head and adds to it at the end
+		seen := map[string]int{}
+		for _, kv := range rr.trailers {
+			seen[http.CanonicalHeaderKey(kv[0])]++
+		}
+		done := map[string]bool{}
+		for i, kv := range rr.trailers {
+			k := http.CanonicalHeaderKey(kv[0])
+			if seen[k] > 1 && !done[k] && !strings.HasPrefix(strings.ToLower(k), "grpc-") {
+				done[k] = true
+				early[i] = true
+				rw.Header().Add(http.TrailerPrefix+kv[0], kv[1])
+			}
+		}
+	}
 	if rp.ExplicitHdr || rr.status != 200 || len(rr.body) == 0 {
 		rw.WriteHeader(rr.status)
 	}
@@ -987,7 +1010,10 @@ func (h *backendHandler) writeResponse(st *rpcState, obs *BackendObs, rw http.Re
 	if rp.StrayHTTPTrailer && obs.Protocol == ProtoConnect && !obs.Stream {
 		rw.Header().Add(http.TrailerPrefix+strayTrailerKey, "t=1")
 	}
-	for _, kv := range rr.trailers {
+	for i, kv := range rr.trailers {
+		if early[i] {
+			continue
+		}
 		// like connect-go and grpc-go, ask the writer for its header map at the time the trailers are set
 		if announce {
 			rw.Header().Add(kv[0], kv[1])
